@@ -2391,7 +2391,7 @@ func callAvcSPSAndSEI(in []byte, arg int) (string, func() string) {
 	}
 	msgs, err := avc.ParseSEINalu(rest, sps)
 	sink = useMsgs(msgs)
-	return errClass(err), nil
+	return errClass(err), func() string { return fmt.Sprint(len(msgs)) }
 }
 
 func callHevcSPSAndSEI(in []byte, arg int) (string, func() string) {
@@ -2425,7 +2425,7 @@ func callAvcDecConfRecAndSlice(in []byte, arg int) (string, func() string) {
 	}
 	h, err := avc.ParseSliceHeader(rest, spsMap, ppsMap)
 	sink = h
-	return errClass(err), nil
+	return errClass(err), func() string { return sliceString(h) }
 }
 
 func callHevcDecConfRecAndSlice(in []byte, arg int) (string, func() string) {
